@@ -38,6 +38,9 @@ EXPLANATION += " R1's decision table is evaluated: _select_format_module is inte
 TECHNIQUE += '; decorator and registry-builder evaluation on model modules; selection decision table'
 EXPLANATION += " Added: (R7) the documenting decorators attach the declared lists unchanged (evaluated; `<function>.guaranteed` in a declaration is resolved to that function's own declaration); (R8) file-name patterns are the frozen documented ones and disjoint per operation (spec/patterns.json); (R9) the registry builders evaluated on a model package listing; (R10) `_select_format_module` / `_select_input_module` as decision tables on a model registry."
 # --- end metadata batch 7
+# --- metadata added for batch 8
+EXPLANATION += ' Added: (R11) no file-system effect in the dump entry points before selection and pre-flight are through (C08-R1): `FileFormatError without touching the file system`.'
+# --- end metadata batch 8
 TRUSTED = ["CPython ast parser", "pkgutil.iter_modules yields modules in sorted name order", "fnmatch glob semantics (* ? [seq])"]
 
 OPS = ("load_one", "load_many", "dump_one", "dump_many")
